@@ -728,7 +728,12 @@ def run(script, ctx):
                 donor.tessellator = comp
                 donor.tessellate()
                 ctx.probe("container_given_used_tessellator")
+            nv0 = len(comp.vertices)
             cont.tessellator = comp
+            if op["used"] and (len(comp.vertices) != nv0 or len(donor.tessellator.vertices) != nv0):
+                ctx.fail("mesh_invalid", "handing a tessellation component that holds the mesh of another surface (%d vertices) to the container changed "
+                         "that mesh: the other surface's component now reports %d vertices" % (nv0, len(donor.tessellator.vertices)),
+                         check="donor_mesh_kept", op=k, trimmed=False)
             ctx.log("ctessellator", cls.__name__, op["used"])
             ctx.ops_executed += 1
             for m in members:
